@@ -13,10 +13,8 @@ def main():
     repo = opts.get('--repo', '/repo')
     g = importlib.import_module(f'contracts.{args[0]}').GROUP
     w = g.world()
-    registry = {}
-    for c in g.contracts:
-        registry.setdefault(c.qual, c)
-        registry.setdefault(c.qual.split('.')[-1] if '.' not in c.qual else c.qual, c)
+    from .check import make_registry
+    registry = make_registry(g)
     eng = Engine(repo, w, registry, bases=w.get('__bases__', {}))
     obs, wts = [], []
     t0 = time.time()
@@ -34,9 +32,10 @@ def main():
         if len(args) > 1 and args[1] not in lm.name:
             continue
         from .engine import Obligation
-        pc, goal = lm.build(w)
-        obs.append(Obligation(f'lemma.{lm.name}', 'canary' if lm.canary else 'lemma', pc, goal, lm.props, 'lemma', ''))
-        wts.append(lm.witness_terms(w) if lm.witness_terms else None)
+        from .check import lemma_steps
+        for suffix, pc, goal in lemma_steps(lm, w):
+            obs.append(Obligation(f'lemma.{lm.name}{suffix}', 'canary' if lm.canary else 'lemma', pc, goal, lm.props, 'lemma', ''))
+            wts.append(lm.witness_terms(w) if lm.witness_terms else None)
     t1 = time.time()
     discharge(obs, wts, timeout_ms=int(opts.get('--timeout', 20000)))
     bad = 0
